@@ -209,6 +209,8 @@ func Family(name string, tier string) []*Scenario {
 		out = append(out, retryWithOtherFault(thorough)...)
 		out = append(out, ownContextError(thorough)...)
 		out = append(out, runThenExtend(thorough)...)
+		out = append(out, taskPanics(thorough)...)
+		out = append(out, readdAfterDeps(thorough)...)
 	case "C14":
 		out = append(out, fourVertexSingleFault(thorough)...)
 		out = append(out, fiveVertexFaults(thorough)...)
@@ -216,6 +218,8 @@ func Family(name string, tier string) []*Scenario {
 		out = append(out, retryWithOtherFault(thorough)...)
 		out = append(out, ownContextError(thorough)...)
 		out = append(out, runThenExtend(thorough)...)
+		out = append(out, readdAfterDeps(thorough)...)
+		out = append(out, skipUnderLimit(thorough)...)
 		for n := 1; n <= 3; n++ {
 			for _, es := range AllDAGs(n) {
 				for _, scr := range assignments(n, []string{"ok", "err", "skip"}) {
@@ -330,6 +334,8 @@ func Family(name string, tier string) []*Scenario {
 			}
 		}
 		out = append(out, readdedSharedTask(thorough)...)
+		out = append(out, limitChangedBetweenRuns(thorough)...)
+		out = append(out, skipUnderLimit(thorough)...)
 		for _, sc := range retryWithOtherFault(thorough) {
 			if sc.Mode == "max1" || sc.Mode == "max2" {
 				out = append(out, sc)
@@ -451,6 +457,8 @@ func Family(name string, tier string) []*Scenario {
 		out = append(out, retryWithOtherFault(thorough)...)
 		out = append(out, runThenExtend(thorough)...)
 		out = append(out, sharedSaturated(thorough)...)
+		out = append(out, readdAfterDeps(thorough)...)
+		out = append(out, slotWaitCancel(thorough)...)
 	case "C16sort":
 		// (c) DepthFirstSort alone on every DAG shape with up to five vertices, and on the same shapes with one
 		// extra edge that closes a cycle; explored over the rotations of its map ranges
@@ -798,6 +806,8 @@ func runThenExtend(thorough bool) []*Scenario {
 		{{"sort", 0, 0}, {"dep", 0, 1}},
 		{{"add", 0, 0}},
 	}
+	// (Not generated: a new, not yet run dependency declared for a task that has already run.  The task ran without
+	// it; whether its dependents wait for the late dependency depends on the schedule at HEAD, so nothing is claimed.)
 	for fi, f := range first {
 		for si, s2 := range second {
 			for _, a := range []string{"ok", "err"} {
@@ -876,6 +886,117 @@ func readdedSharedTask(thorough bool) []*Scenario {
 		for _, mm := range [][2]string{{"par", "par"}, {"serial", "par"}, {"max1", "serial"}} {
 			sc := &Scenario{N: 2, Hist: h, Mode: mm[0], SharedMode: mm[1], Shared: []int{0}, Shared2: true, History: true}
 			sc.Scripts = [][]string{{"ok"}, {"ok"}}
+			out = append(out, sc)
+		}
+	}
+	return out
+}
+
+// taskPanics: a task function panics.  Whatever the library makes of that, it has not returned nil: nothing that
+// depends on it may start.
+func taskPanics(thorough bool) []*Scenario {
+	var out []*Scenario
+	for n := 1; n <= 3; n++ {
+		for _, es := range AllDAGs(n) {
+			for v := 0; v < n; v++ {
+				hasDependent := false
+				for _, e := range es {
+					if e[1] == v {
+						hasDependent = true
+					}
+				}
+				if !hasDependent && n > 1 {
+					continue
+				}
+				scr := make([][]string, n)
+				for i := range scr {
+					scr[i] = []string{"ok"}
+				}
+				scr[v] = []string{"panic"}
+				for _, mode := range []string{"par", "serial"} {
+					sc := GraphScenario(n, es, scr, nil, mode)
+					sc.Light = 1
+					out = append(out, sc)
+				}
+			}
+		}
+	}
+	return out
+}
+
+// readdAfterDeps: a task is added again (same ID) after its dependencies were declared, and one of those
+// dependencies succeeds, fails or returns ErrorSkipParents.
+func readdAfterDeps(thorough bool) []*Scenario {
+	var out []*Scenario
+	hists := [][]Call{
+		{{"dep", 0, 1}, {"add", 0, 0}},
+		{{"add", 0, 0}, {"add", 1, 0}, {"dep", 0, 1}, {"add", 0, 0}},
+		{{"dep", 0, 1}, {"dep", 0, 2}, {"add", 0, 0}},
+		{{"dep", 0, 1}, {"add", 0, 0}, {"add", 1, 0}},
+		{{"dep", 0, 1}, {"dep", 2, 0}, {"add", 0, 0}},
+		{{"dep", 0, 1}, {"add2", 0, 0}},
+	}
+	for _, h := range hists {
+		for _, b := range []string{"ok", "skip", "err"} {
+			for _, mode := range []string{"par", "serial"} {
+				sc := &Scenario{N: 3, Hist: h, Mode: mode, History: true, Light: 1}
+				sc.Scripts = [][]string{{"ok"}, {b}, {"ok"}}
+				out = append(out, sc)
+			}
+		}
+	}
+	return out
+}
+
+// limitChangedBetweenRuns: Run, then SetMaxParallel with a smaller limit and new tasks, then Run again: the second run
+// obeys the limit in force when it starts.
+func limitChangedBetweenRuns(thorough bool) []*Scenario {
+	var out []*Scenario
+	hists := [][]Call{
+		{{"add", 0, 0}, {"run", 0, 0}, {"max", 1, 0}, {"add", 1, 0}, {"add", 2, 0}},
+		{{"max", 2, 0}, {"add", 0, 0}, {"run", 0, 0}, {"max", 1, 0}, {"add", 1, 0}, {"add", 2, 0}},
+		{{"max", 1, 0}, {"add", 0, 0}, {"add", 1, 0}},
+	}
+	for _, h := range hists {
+		sc := &Scenario{N: 3, Hist: h, Mode: "par", History: true, Light: 1}
+		sc.Scripts = [][]string{{"ok"}, {"ok"}, {"ok"}}
+		out = append(out, sc)
+	}
+	return out
+}
+
+// skipUnderLimit: a task returns ErrorSkipParents under a limit while its ancestors are reported done without ever
+// having held a slot and other tasks are running or waiting.
+func skipUnderLimit(thorough bool) []*Scenario {
+	var out []*Scenario
+	for _, mode := range []string{"max2", "max1"} {
+		for _, es := range [][][2]int{{{1, 0}}, {{1, 0}, {2, 1}}} {
+			scr := [][]string{{"skip"}, {"ok"}, {"ok"}, {"ok"}, {"ok"}}
+			sc := GraphScenario(5, es, scr, nil, mode)
+			sc.Light = 2
+			if thorough {
+				sc.Light = 1
+			}
+			out = append(out, sc)
+		}
+	}
+	return out
+}
+
+// slotWaitCancel: cancellation while handed-out tasks still wait for a slot.
+func slotWaitCancel(thorough bool) []*Scenario {
+	var out []*Scenario
+	for n := 2; n <= 3; n++ {
+		scr := make([][]string, n)
+		for i := range scr {
+			scr[i] = []string{"ok"}
+		}
+		for _, mode := range []string{"max1", "serial"} {
+			sc := GraphScenario(n, nil, scr, nil, mode)
+			sc.Cancel = true
+			if n == 3 {
+				sc.Light = 1
+			}
 			out = append(out, sc)
 		}
 	}
